@@ -1,5 +1,77 @@
 import Driver.Proto
-/-! C11 handler (not implemented yet). -/
+import ThunderModel.Pagination
+/-! C11 handler. -/
+open Lean TM.Page
+
 namespace Driver.C11
-def handle : Handler := fun _ => throw "C11: no model yet"
+
+def optNat (j : Json) (k : String) : Except String (Option Nat) :=
+  match j.getObjVal? k with
+  | .ok .null => .ok none
+  | .ok v => do .ok (some (← v.getNat?))
+  | .error _ => .ok none
+
+def optInt (j : Json) (k : String) : Except String (Option Int) :=
+  match j.getObjVal? k with
+  | .ok .null => .ok none
+  | .ok v => do .ok (some (← v.getInt?))
+  | .error _ => .ok none
+
+def decNode (j : Json) : Except String Node := do
+  let key ← nat j "key"
+  let keep ← listOf (·.getBool?) (← field j "keep")
+  let sk ← ints (← field j "sort")
+  pure { key := key, keep := keep, sortKey := sk }
+
+def decArgs (j : Json) : Except String Args := do
+  let sortBy : Option (Option Nat) ←
+    match j.getObjVal? "sortBy" with
+    | .ok .null => pure none
+    | .ok (.str _) => pure (some none)
+    | .ok v => do pure (some (some (← v.getNat?)))
+    | .error _ => pure none
+  pure { first := ← optInt j "first", last := ← optInt j "last", after := ← optNat j "after",
+         before := ← optNat j "before", filter := (← bool j "filter"),
+         fields := ← nats (← field j "fields"), sortBy := sortBy, desc := (← bool j "desc") }
+
+def encOptNat : Option Nat → Json
+  | none => .null
+  | some n => (n : Json)
+
+def encResult (r : Result) : Json :=
+  Json.mkObj [("edges", jNats r.edges), ("hasNext", r.hasNext), ("hasPrev", r.hasPrev),
+    ("start", encOptNat r.startCursor), ("end", encOptNat r.endCursor), ("total", (r.total : Json))]
+
+def encErr : Err → String
+  | .negative => "negative" | .firstAndLast => "firstAndLast" | .unknownSort => "unknownSort"
+
+def handle : Handler := fun req => do
+  let op ← str req "op"
+  match op with
+  | "conn" =>
+    let nodes ← listOf decNode (← field req "nodes")
+    let a ← decArgs (← field req "args")
+    let res := connection nodes a
+    let l := specList nodes a
+    -- S: specPage over the spec list, with the argument checks of the property's wording
+    let spec : Except String Result :=
+      if nodes.isEmpty then .ok emptyResult else
+      match l with
+      | .error e => .error (encErr e)
+      | .ok l =>
+        if intNeg a.first || intNeg a.last then .error "negative"
+        else if a.first.isSome && a.last.isSome then .error "firstAndLast"
+        else .ok (specPage l (a.first.map Int.toNat) (a.last.map Int.toNat) a.after a.before)
+    pure <| Json.mkObj [
+      ("res", match res with | .ok r => Json.mkObj [("ok", encResult r)] | .error e => Json.mkObj [("err", encErr e)]),
+      ("spec", jExcept encResult spec),
+      ("L", match l with | .ok l => jNats l | .error e => Json.mkObj [("err", encErr e)]),
+      ("nodup", decide ((nodes.map (·.key)).Nodup))]
+  | "walk" =>
+    let l ← nats (← field req "L")
+    let n ← nat req "n"
+    pure <| Json.mkObj [("forward", jNats (walk l n (l.length + 1) none)),
+                        ("backward", jNats (walkBack l n (l.length + 1) none))]
+  | _ => throw s!"C11: unknown op {op}"
+
 end Driver.C11
